@@ -2,8 +2,11 @@ package main
 
 import (
 	"context"
+	"database/sql"
 	"errors"
 	"fmt"
+	"io"
+	"os"
 	"sort"
 	"time"
 
@@ -13,6 +16,37 @@ import (
 
 var errInjectedGet = errors.New("injected storage read failure")
 var errInjectedSet = errors.New("injected storage write failure")
+
+// timeoutError: what a database driver or a network client hands back when its own deadline passes
+type timeoutError struct{ cause error }
+
+func (e timeoutError) Error() string   { return "i/o timeout: " + e.cause.Error() }
+func (e timeoutError) Unwrap() error   { return e.cause }
+func (e timeoutError) Timeout() bool   { return true }
+func (e timeoutError) Temporary() bool { return true }
+
+// shapedStorageError: the failures a real storage produces, each of them wrapping the harness's marker so that the outcome can be
+// classified — the bare error, the storage's own query deadline or cancellation (the ceremony's context is alive), an end of stream, a
+// missing row / file in the backend's own vocabulary, a timeout in the net.Error style, a join
+func shapedStorageError(marker error, k int) error {
+	switch k % 8 {
+	case 1:
+		return fmt.Errorf("storage: query: %w: %w", marker, context.DeadlineExceeded)
+	case 2:
+		return fmt.Errorf("storage: %w", fmt.Errorf("query: %w (%w)", context.Canceled, marker))
+	case 3:
+		return errors.Join(marker, io.ErrUnexpectedEOF)
+	case 4:
+		return fmt.Errorf("storage: %w: %w", marker, sql.ErrNoRows)
+	case 5:
+		return timeoutError{marker}
+	case 6:
+		return fmt.Errorf("storage: %w: %w", marker, os.ErrNotExist)
+	case 7:
+		return errors.Join(context.DeadlineExceeded, os.ErrDeadlineExceeded, marker)
+	}
+	return marker
+}
 
 // faultStore is the harness's CredentialStorage: a real map plus injected outcomes, recording every call.
 type faultStore struct {
@@ -48,7 +82,7 @@ func (s *faultStore) GetCredential(_ context.Context, id []byte) (*webauthn.Cred
 			return nil, fmt.Errorf("repository: %w", errors.Join(webauthn.ErrCredentialNotFound, backend))
 		}
 	case "err":
-		return nil, errInjectedGet
+		return nil, shapedStorageError(errInjectedGet, len(id)+len(s.calls))
 	}
 	c, ok := s.m[string(id)]
 	if !ok {
@@ -60,7 +94,7 @@ func (s *faultStore) GetCredential(_ context.Context, id []byte) (*webauthn.Cred
 func (s *faultStore) SetCredential(_ context.Context, c *webauthn.Credential) error {
 	s.calls = append(s.calls, M{"set": credObs(c)})
 	if s.setMode == "err" {
-		return errInjectedSet
+		return shapedStorageError(errInjectedSet, len(c.ID)+len(s.calls))
 	}
 	cp := &webauthn.Credential{ID: append([]byte{}, c.ID...), OwnerID: append([]byte{}, c.OwnerID...), PublicKey: append([]byte{}, c.PublicKey...)}
 	s.m[string(c.ID)] = cp
